@@ -1,3 +1,4 @@
+import Log4rsModel.Base.Outcome
 /-
 C15 (a) — the snapshot swap. Model of `src/lib.rs`:
 
@@ -15,9 +16,9 @@ an interleaving: `step tid` lets one log call take its next step, `swap s` store
 `deliver` is split into "resolve index and enter `append`" and "return from `append`", so a swap
 can fall inside a delivery), `spawn t l` starts a new log call (possibly nested inside an `append`).
 
-`reload = false` is the code as it is (the pointer is loaded once). `reload = true` is a
-deliberately wrong variant that re-reads the pointer at every step; it exists only to show that the
-theorems distinguish the two (non-vacuity).
+`LoadMode.once` is the code as it is (the pointer is loaded once). The other load modes are
+deliberately wrong variants; they exist only to show that the theorems distinguish them from the
+code (non-vacuity).
 -/
 namespace Log4rs.Reconfig
 
@@ -25,15 +26,29 @@ abbrev AppenderId := Nat
 abbrev Target := Nat
 abbrev Level := Nat
 
-/-- one `SharedLogger`: routing function and appender table, together -/
+/-- one `SharedLogger`: the tree (what `root.find(target)` yields: the found logger's level and
+its appender indices) and the appender table, together -/
 structure Snapshot where
   tag : Nat
   table : List AppenderId
-  /-- `root.find(target)` + level gate: the indices (into `table`) the record fans out to -/
-  route : Target → Level → List Nat
+  /-- `root.find(target).level` -/
+  level : Target → Nat
+  /-- `root.find(target).appenders`: indices into `table` -/
+  apps : Target → List Nat
+
+/-- `find` + the level gate of `ConfiguredLogger::log`: the indices the record fans out to -/
+def Snapshot.route (s : Snapshot) (t : Target) (l : Level) : List Nat :=
+  if s.level t ≥ l then s.apps t else []
 
 /-- invariant of every snapshot `SharedLogger::new` builds: indices point into its own table -/
-def Snapshot.WF (s : Snapshot) : Prop := ∀ t l i, i ∈ s.route t l → i < s.table.length
+def Snapshot.WF (s : Snapshot) : Prop := ∀ t i, i ∈ s.apps t → i < s.table.length
+
+theorem Snapshot.WF.route {s : Snapshot} (h : s.WF) (t : Target) (l : Level) (i : Nat)
+    (hi : i ∈ s.route t l) : i < s.table.length := by
+  unfold Snapshot.route at hi
+  split at hi
+  · exact h t i hi
+  · cases hi
 
 /-- a delivery: (tag of the snapshot whose table resolved the index, appender found there) -/
 abbrev Delivery := Nat × AppenderId
@@ -77,9 +92,16 @@ def MiniCfg.effective (c : MiniCfg) (t : Target) : Nat × List AppenderId :=
 def mkSnapshot (c : MiniCfg) : Snapshot where
   tag := c.tag
   table := c.table
-  route := fun t l =>
-    let e := c.effective t
-    if e.1 ≥ l then e.2.filterMap (nameIdx c.table) else []
+  level := fun t => (c.effective t).1
+  apps := fun t => (c.effective t).2.filterMap (nameIdx c.table)
+
+/-- `SharedLogger::new` as the code is: `appender_map[&**appender]` PANICS on a name that is not in
+the table. (`Config::builder().build` never hands such a configuration over; that is `c.valid`.)
+`mkSnapshot` above is the total function used on valid configurations. -/
+def mkSnapshotO (c : MiniCfg) : Outcome Unit Snapshot :=
+  if c.rootApps.all (c.table.contains ·) && c.loggers.all (fun e => e.2.2.all (c.table.contains ·)) then
+    .ok (mkSnapshot c)
+  else .panic "appender_map[name]: no such appender"
 
 /-! ### the machine -/
 
@@ -119,16 +141,33 @@ structure Sys where
   threads : List Thread := []
   trace : List Obs := []
 
-/-- one step of one `log` call. `reload = false`: the code. -/
-def Thread.step (reload : Bool) (store : Snapshot) (tid : Nat) (th : Thread) : Thread × List Obs :=
+/-- how a `log` call reads the shared pointer. `once` is the code. The other two are deliberately
+wrong variants, present only so that the theorems can be seen to tell them from the code:
+`everyStep` re-reads the pointer at every step; `gateThenReload` decides "is this record enabled"
+on a first load and does find + fan-out on a second one (an early-return `if !self.enabled(..)`
+in front of `let shared = self.0.load()`). -/
+inductive LoadMode where
+  | once | everyStep | gateThenReload
+  deriving Repr, DecidableEq
+
+def LoadMode.pick (m : LoadMode) (store s : Snapshot) : Snapshot :=
+  match m with
+  | .everyStep => store
+  | _ => s
+
+/-- one step of one `log` call. `mode = .once`: the code. -/
+def Thread.step (mode : LoadMode) (store : Snapshot) (tid : Nat) (th : Thread) : Thread × List Obs :=
   match th.pc with
   | .init => ({ th with pc := .loaded store, atLoad := some store }, [])
   | .loaded s =>
-    let cur := if reload then store else s
-    ({ th with pc := .fanout s (cur.route th.target th.level) }, [])
+    match mode with
+    | .gateThenReload =>
+      if s.level th.target ≥ th.level then ({ th with pc := .fanout store (store.apps th.target) }, [])
+      else ({ th with pc := .fanout s [] }, [])
+    | _ => ({ th with pc := .fanout s ((mode.pick store s).route th.target th.level) }, [])
   | .fanout s [] => ({ th with pc := .errs s }, [])
   | .fanout s (i :: todo) =>
-    let cur := if reload then store else s
+    let cur := mode.pick store s
     match cur.table[i]? with
     | none => ({ th with pc := .panicked }, [.panic tid])      -- `appenders[idx]` out of bounds
     | some a => ({ th with pc := .inAppend s todo, out := th.out ++ [(cur.tag, a)] },
@@ -138,7 +177,7 @@ def Thread.step (reload : Bool) (store : Snapshot) (tid : Nat) (th : Thread) : T
   | .done => (th, [])
   | .panicked => (th, [])
 
-def Sys.apply (reload : Bool) (sys : Sys) : Event → Sys
+def Sys.apply (mode : LoadMode) (sys : Sys) : Event → Sys
   | .spawn t l =>
     { sys with threads := sys.threads ++ [{ target := t, level := l }],
                trace := sys.trace ++ [.begin sys.threads.length t l] }
@@ -147,11 +186,11 @@ def Sys.apply (reload : Bool) (sys : Sys) : Event → Sys
     match sys.threads[tid]? with
     | none => sys
     | some th =>
-      let r := th.step reload sys.store tid
+      let r := th.step mode sys.store tid
       { sys with threads := sys.threads.set tid r.1, trace := sys.trace ++ r.2 }
 
-def Sys.run (reload : Bool) (sys : Sys) (evs : List Event) : Sys :=
-  evs.foldl (Sys.apply reload) sys
+def Sys.run (mode : LoadMode) (sys : Sys) (evs : List Event) : Sys :=
+  evs.foldl (Sys.apply mode) sys
 
 def Thread.finished (th : Thread) : Bool :=
   match th.pc with
@@ -196,10 +235,10 @@ def schedule (sc : Scenario) : Nat → Sys → List Frame → List Event → Lis
     | none => schedule sc fuel sys (.acts d as :: rest) acc
     | some c =>
       let ev := Event.swap (mkSnapshot c)
-      schedule sc fuel (sys.apply false ev) (.acts d as :: rest) (ev :: acc)
+      schedule sc fuel (sys.apply .once ev) (.acts d as :: rest) (ev :: acc)
   | fuel + 1, sys, .acts d (.log t l :: as) :: rest, acc =>
     let ev := Event.spawn t l
-    schedule sc fuel (sys.apply false ev) (.run sys.threads.length d :: .acts d as :: rest) (ev :: acc)
+    schedule sc fuel (sys.apply .once ev) (.run sys.threads.length d :: .acts d as :: rest) (ev :: acc)
   | fuel + 1, sys, .run tid d :: rest, acc =>
     match sys.threads[tid]? with
     | none => schedule sc fuel sys rest acc
@@ -207,14 +246,14 @@ def schedule (sc : Scenario) : Nat → Sys → List Frame → List Event → Lis
       if th.finished then schedule sc fuel sys rest acc
       else
         let ev := Event.step tid
-        let r := th.step false sys.store tid
+        let r := th.step .once sys.store tid
         let inner : List Frame :=
           if d == 0 then
             match r.2 with
             | [.deliver _ tag a] => [.acts 1 (sc.script tag a)]
             | _ => []
           else []
-        schedule sc fuel (sys.apply false ev) (inner ++ .run tid d :: rest) (ev :: acc)
+        schedule sc fuel (sys.apply .once ev) (inner ++ .run tid d :: rest) (ev :: acc)
 
 def Scenario.init (sc : Scenario) : Option Sys :=
   (sc.cfgs[0]?).map (fun c => { store := mkSnapshot c })
@@ -224,6 +263,6 @@ def Scenario.events (sc : Scenario) (sys : Sys) : List Event :=
 
 /-- the model's observation of a scripted scenario -/
 def Scenario.trace (sc : Scenario) : Option (List Obs) :=
-  sc.init.map (fun sys => (sys.run false (sc.events sys)).trace)
+  sc.init.map (fun sys => (sys.run .once (sc.events sys)).trace)
 
 end Log4rs.Reconfig
